@@ -40,6 +40,7 @@ def make_overlay(patch_path, name):
 
 def run_check(prop, overlay_dir, focus=None):
     env = dict(os.environ)
+    env['XV_EPHEMERAL_FACTS'] = '1'
     if focus:
         env['XV_FOCUS_RULE'] = focus
     ev = tempfile.mkdtemp(prefix='xv-ev-', dir=CACHE)
